@@ -1,5 +1,8 @@
 import ExprModel.Props.C13Pipeline
 import ExprModel.Proofs.OptLocs
+import ExprModel.Proofs.PatchLocs
+import ExprModel.Proofs.CheckerLocs
+import ExprModel.Proofs.PatchOps
 /-
 C13, locations through the optimizer (closes the gap named in DESIGN.md section 12: "no theorem carries
 locations through the optimizer").  `optimizer.Optimize` sits between the checker and the compiler; the
@@ -103,5 +106,95 @@ theorem optimize_keeps_locations_goal_witness : ¬ optimize_keeps_locations_goal
   have hopt : optimize Flags.asIs [] w n = .ok n' := rfl
   have := h (fun l => l.line = 1) Flags.asIs [] w n n' hn hopt
   simp [n', Node.AllLoc] at this
+
+/-! ### the typed pipeline, end to end -/
+
+/-- **`check_keeps_locations`**: the tree `checker.Check` returns (annotated, call arguments retyped, fast-call flags
+    set) has, node for node, the locations of the tree it was given — every checker configuration, every tree. -/
+theorem check_keeps_locations (P : Loc → Prop) (cfg : CheckCfg) (n n' : Node) (t : OTy) (hn : n.AllLoc P)
+    (h : check cfg n = .ok n' t) : n'.AllLoc P := by
+  have := CheckerLocs.check_allLoc (P := P) cfg n hn
+  rw [h] at this
+  exact this
+
+/-- **`patch_operators_keeps_locations`**: `compiler.PatchOperators` (over the reference walker table, which is the
+    table of the source: C10 `walk_table_is_reference`) returns a tree with the locations of the tree given; the call
+    that replaces an overloaded occurrence sits at the occurrence's location. -/
+theorem patch_operators_keeps_locations (P : Loc → Prop) (ops : OpTable) (tyOf : Node → String) (n n' : Node)
+    (hn : n.AllLoc P) (h : patchOperators refSlots ops tyOf n = some n') : n'.AllLoc P := by
+  rw [patchOperators_ref] at h
+  cases h
+  exact explicitCallForm_allLoc ops tyOf n hn
+
+/-- **`typed_error_location_in_source`** — `expr.Compile(src, Env(…), Operator(…), Optimize(…))` + `expr.Run`, every
+    stage a model of the code: Config.Check, lexer, parser, checker, PatchOperators, checker, optimizer, compiler, VM.
+    Whatever fails at run time is reported at a location that lies inside the source and whose snippet shows the
+    first rune of the defining token of a node of the parsed tree — or at 0:0 (a fresh inner node of an optimizer
+    rewrite; see `optimize_keeps_locations_goal_witness`).  Hypotheses: the standard lexer tables (pinned to the source
+    by C12 `tables_pinned`), line feed is white space, the walker table is the reference one, no `AsInt64` /
+    `AsFloat64` epilogue, operands fit 16 bits (guaranteed by the compiler's guard: C05 `compiled_fits_code`). -/
+theorem typed_error_location_in_source (F : Api.Front) (T : Api.TypedCfg) (c : Cfg) (src : String) (cp : Compiled)
+    (checked final : Node) (htab : F.tables = LexTables.std) (hnl : F.cc.isSpace '\n' = true)
+    (hw : T.walkTbl = refSlots) (hcast : Api.castOf T.check.expect = none)
+    (h : Api.compileSource F T c.world src = .ok cp checked final) (hfit : Refine.FitsU16 cp.code)
+    (fuel : Nat) (e : ErrClass) (s' : VM)
+    (hrun : run c (Refine.progOf cp) fuel = (.error e, s')) (he : e ≠ .fuel) :
+    (∃ ch, F.cc.isSpace ch = false ∧ PointsAt src.toList (report (locTable 0 cp.code) s'.pp) ch) ∨
+      report (locTable 0 cp.code) s'.pp = {} := by
+  obtain ⟨_, ts, n, n1, t1, n2, t3, hl, hp, h1, h2, h3, hopt, hcomp⟩ := C01.compileSource_ok_inv h
+  let P : Loc → Prop := fun l => (∃ ch, F.cc.isSpace ch = false ∧ PointsAt src.toList l ch) ∨ l = {}
+  rw [htab] at hl
+  have hn : n.AllLoc P :=
+    Node.allLoc_mono (fun _ hq => Or.inl hq) n (node_locations_in_source F.cc hnl F.pcfg src ts n hl hp)
+  have hn1 := check_keeps_locations P T.check n n1 t1 hn h1
+  rw [hw] at h2
+  have hn2 := patch_operators_keeps_locations P T.opTable T.tyOf n1 n2 hn1 h2
+  have hck := check_keeps_locations P T.check n2 checked t3 hn2 h3
+  have hfin : final.AllLoc P := by
+    by_cases ho : T.optimize = true
+    · rw [if_pos ho] at hopt
+      exact optimize_keeps_locations P (Or.inr rfl) T.optFlags T.constFns c.world checked final hck hopt
+    · rw [if_neg ho] at hopt
+      cases hopt
+      exact hck
+  have hcfg : Bc.CompCfgOk T.compCfg := by
+    intro t ht
+    simp only [Api.TypedCfg.compCfg, hcast] at ht
+    cases ht
+  rcases runtime_error_location T.compCfg hcfg final cp hcomp hfit c fuel e s' hrun he P hfin with hP | ⟨h0, _⟩
+  · exact hP
+  · exact Or.inr h0
+
+/-- non-vacuity of the chain: C01's example `I in 1..3 and not B` (every parsed node on line 1) goes through check,
+    PatchOperators, check and the optimizer (`in_range` fires), and every node of the tree handed to the compiler is
+    on line 1 or at 0:0 — obtained from the three theorems, not by evaluation -/
+example : (C01.exTyped C01.w0).2.2.AllLoc (fun l => l.line = 1 ∨ l = {}) := by
+  obtain ⟨n1, t1, n2, t3, h1, h2, h3, h4, _⟩ := C01.middle_ok_inv C01.exTyped_ok
+  have hn : C01.exParsed.AllLoc (fun l => l.line = 1 ∨ l = {}) := by
+    simp [C01.exParsed, C01.mkAt, Node.AllLoc]
+  have hn1 := check_keeps_locations _ _ _ n1 t1 hn h1
+  have hn2 := patch_operators_keeps_locations _ _ _ n1 n2 hn1 h2
+  have hck := check_keeps_locations _ _ _ _ t3 hn2 h3
+  have h4' : optimize C01.exT.optFlags C01.exT.constFns C01.w0 (C01.exTyped C01.w0).2.1 = .ok (C01.exTyped C01.w0).2.2 := h4
+  exact optimize_keeps_locations _ (Or.inr rfl) _ _ _ _ _ hck h4'
+
+/-- … and so is every compile error of the optimizer stage of that pipeline -/
+theorem typed_optimize_error_in_source (F : Api.Front) (T : Api.TypedCfg) (w : World) (src : String) (ts : List Token)
+    (n n1 n2 checked : Node) (t1 t3 : OTy) (l : Loc)
+    (htab : F.tables = LexTables.std) (hnl : F.cc.isSpace '\n' = true) (hw : T.walkTbl = refSlots)
+    (hl : Lex.lex F.cc F.tables src = .ok ts) (hp : Parser.parse F.pcfg ts = .ok n)
+    (h1 : check T.check n = .ok n1 t1) (h2 : patchOperators T.walkTbl T.opTable T.tyOf n1 = some n2)
+    (h3 : check T.check n2 = .ok checked t3)
+    (hopt : optimize T.optFlags T.constFns w checked = .error l) :
+    (∃ ch, F.cc.isSpace ch = false ∧ PointsAt src.toList l ch) ∨ l = {} := by
+  let P : Loc → Prop := fun l => (∃ ch, F.cc.isSpace ch = false ∧ PointsAt src.toList l ch) ∨ l = {}
+  rw [htab] at hl
+  have hn : n.AllLoc P :=
+    Node.allLoc_mono (fun _ hq => Or.inl hq) n (node_locations_in_source F.cc hnl F.pcfg src ts n hl hp)
+  have hn1 := check_keeps_locations P T.check n n1 t1 hn h1
+  rw [hw] at h2
+  have hn2 := patch_operators_keeps_locations P T.opTable T.tyOf n1 n2 hn1 h2
+  have hck := check_keeps_locations P T.check n2 checked t3 hn2 h3
+  exact optimize_error_located P (Or.inr rfl) T.optFlags T.constFns w checked l hck hopt
 
 end ExprModel.C13
